@@ -124,7 +124,41 @@ def run(p: Project, tier: str) -> Result:
             ps = w.roots[entry]
             r.paths += len(ps)
             check_entry(r, s, entry, fi, tok, granted, queue, ps)
+        check_token_tags(r, w)
     return r
+
+
+def check_token_tags(r, w):
+    """R6: the ownership check of put/get/cancel compares `token.requesting_process` with the caller, and the nodes cancel through
+    `token.resourcename`: every reservation token a store hands out must carry both, on every path of reserve_put / reserve_get."""
+    r.rule('C07.R6', 'reserve_put / reserve_get tag the token they return with requesting_process = the caller and resourcename = the store', 16)
+    for entry in ('reserve_put', 'reserve_get'):
+        fi = w.root_funcs.get(entry)
+        if fi is None:
+            continue
+        key = f'{w.store.label}.{entry}::token-tags'
+        why = bad = None
+        n = 0
+        for pa in w.roots[entry]:
+            if pa.raises:
+                continue
+            n += 1
+            ret = next((e.value for e in reversed(pa.events) if e.kind == 'return' and e.fi is fi), None)
+            if ret is None or ret[0] != 'newevent':
+                why, bad = 'the request does not return a fresh event', pa
+                continue
+            tags = {e.attr: e.value for e in pa.events if e.kind == 'setattr' and e.d.get('obj_val') == ret}
+            rp = tags.get('requesting_process')
+            if rp is None or not (rp[0] == 'attr' and rp[2] == 'active_process'):
+                why, bad = 'the token is handed out without `requesting_process = env.active_process`: no put / get / cancel with it can pass the ownership check', pa
+            elif tags.get('resourcename') not in (('name', 'self'), ('param', 'self')):
+                why, bad = 'the token is handed out without `resourcename = self`: nodes cancel and use reservations through token.resourcename', pa
+        if n == 0:
+            why = 'no completing path'
+        if why:
+            r.fail('C07.R6', key, why, src(fi.module), fi.node.lineno, bad.describe() if bad else None)
+        else:
+            r.ok('C07.R6', key, 'requesting_process and resourcename set on the returned token on every path', src(fi.module), fi.node.lineno)
 
 
 def check_entry(r: Result, s, entry, fi, tok, granted, queue, ps):
